@@ -557,8 +557,10 @@ def write_evidence(ctx, violations):
         "wall_s": round(time.time() - ctx.t0, 2),
         "violations": violations,
     }
-    os.makedirs(os.path.join(VERIF, "evidence"), exist_ok=True)
-    json.dump(ev, open(os.path.join(VERIF, "evidence", f"{ctx.pid}.json"), "w"), indent=1, default=str)
+    # runs against a deliberately changed tree (tools/run_seeded.py) must not overwrite the evidence of the real tree
+    evdir = os.environ.get("VERIF_EVIDENCE_DIR") or os.path.join(VERIF, "evidence")
+    os.makedirs(evdir, exist_ok=True)
+    json.dump(ev, open(os.path.join(evdir, f"{ctx.pid}.json"), "w"), indent=1, default=str)
 
 
 def run_check(mod, tier, seed, replay=None):
